@@ -39,11 +39,20 @@ func (node *tagBlockNode) Execute(ctx *ExecutionContext, writer TemplateWriter) 
 	}
 
 	blockWrapper := blockWrappers[lenBlockWrappers-1]
+	// "block" describes the block being rendered; when this block is nested in another
+	// one, the enclosing block's information is put back afterwards so that block.Super
+	// used after the nested block still reaches the enclosing block's parent.
+	outer, nested := ctx.Private["block"]
 	ctx.Private["block"] = tagBlockInformation{
 		ctx:      ctx,
 		wrappers: blockWrappers[0 : lenBlockWrappers-1],
 	}
 	err := blockWrapper.Execute(ctx, writer)
+	if nested {
+		ctx.Private["block"] = outer
+	} else {
+		delete(ctx.Private, "block")
+	}
 	if err != nil {
 		return err
 	}
